@@ -42,7 +42,7 @@ def c03(form_list, result):
 
 
 # -- C04 -----------------------------------------------------------------
-def c04(form_list, requested, result, reeval=None):
+def c04(form_list, requested, result, reeval=None, requested_lines=()):
     """solution == demand closure (computed from re-evaluation read sets)"""
     errs = []
     if result.exc is not None:
@@ -79,6 +79,8 @@ def c04(form_list, requested, result, reeval=None):
 
     for r in requested:
         add_form(r)
+    for line in requested_lines:
+        add(line)
     i = 0
     why = {}
     while i < len(closure):
